@@ -89,14 +89,23 @@ Proof. exact ratio_normalised. Qed.
 Print Assumptions flavour_ratio_normalised.
 
 (* --- exit points ----------------------------------------------------------------------------- *)
-(* box: whenever get_exit_points returns (it raises otherwise), entry and exit lie on the boundary
-   of the box, on the line of flight, with the vertex strictly between them *)
-Theorem exit_points_box_sound_partial : forall dx dy dz v d en ex,
+(* box: for a vertex strictly inside and a non-zero direction get_exit_points returns two points
+   that lie on the boundary of the box, on the line of flight, the entry behind and the exit ahead
+   of the vertex (good_point ... true/false = exists s<0 / s>0, p = v + s d, p on the boundary) *)
+Theorem exit_points_box : forall dx dy dz v d,
+  box_strictly_inside dx dy dz v -> (exists k, (k < 3)%nat /\ vnth d k <> 0) ->
+  exists en ex, box_exit_points dx dy dz v d = Some (en, ex) /\
+                good_point dx dy dz v d true en /\ good_point dx dy dz v d false ex.
+Proof. exact exit_points_box_lemma. Qed.
+Print Assumptions exit_points_box.
+
+(* and whatever it returns has these properties (also when the direction is zero: it then raises) *)
+Theorem exit_points_box_sound : forall dx dy dz v d en ex,
   box_strictly_inside dx dy dz v ->
   box_exit_points dx dy dz v d = Some (en, ex) ->
   good_point dx dy dz v d true en /\ good_point dx dy dz v d false ex.
 Proof. exact exit_points_box_sound_lemma. Qed.
-Print Assumptions exit_points_box_sound_partial.
+Print Assumptions exit_points_box_sound.
 
 (* cylinder, side wall, generic branch d_x <> 0: both candidate points lie on the circle and on the
    line of flight, in order of x *)
